@@ -114,6 +114,9 @@ fn compute_idna(case: &Case) -> Vec<(Vec<u8>, Vec<u8>, bool)> {
         if op.name == "add" || op.name == "del" {
             hosts.insert(op.args[1].b().to_vec());
         }
+        if op.name == "hashost" {
+            hosts.insert(op.args[0].b().to_vec());
+        }
     }
     hosts
         .into_iter()
@@ -215,6 +218,15 @@ fn compute_table(case: &Case) -> Vec<(Vec<u8>, bool, Vec<Vec<u8>>)> {
                 probes.insert(op.args[0].b().to_vec());
                 labels(op.args[0].b(), &mut probes);
                 probes.insert(op.args[1].b().to_vec());
+            }
+            "hashost" => {
+                let h = op.args[0].b();
+                probes.insert(h.to_vec());
+                labels(h, &mut probes);
+                if let Some(a) = real_idna(h) {
+                    labels(&a, &mut probes);
+                    probes.insert(a);
+                }
             }
             "tins" | "trem" | "tget" | "tmut" => {
                 let k = op.args[0].b();
@@ -708,6 +720,41 @@ fn run(case: &Case, out: &mut Out) {
                         }
                     }
                     Err(_undefined) => {}
+                }
+            }
+            "hashost" => {
+                let h = a[0].b();
+                let got = router.has_hostname(&s(h));
+                out.obs(&[tbool(got)]);
+                // the documented meaning ("no routes remain" for that name): a live pre / post frontend whose
+                // domain matches the name, or a live tree frontend filed under that very name (exact or through
+                // its /regex/ segments; a wild-card key does not count: "exact match only").  Names and keys
+                // with a '*' are left to the correspondence.
+                if !h.is_empty() && h[0] != b'.' && !h.contains(&b'*') {
+                    let ascii = real_idna(h);
+                    let flat = live.iter().any(|f| f.pos != 2 && oracle.flat_host(&f.host, h));
+                    let mut tree = false;
+                    let mut undefined = false;
+                    if let Some(ah) = &ascii {
+                        for f in live.iter().filter(|f| f.pos == 2) {
+                            match oracle.tree_host(&f.host, ah) {
+                                Some(2) => {}
+                                Some(_) if f.host.contains(&b'*') => undefined = true,
+                                Some(_) => tree = true,
+                                None => {}
+                            }
+                        }
+                    }
+                    let exp = flat || tree;
+                    if (exp || !undefined) && exp != got {
+                        out.viol(
+                            cls("has-hostname"),
+                            &format!(
+                                "tag={} kind=has-hostname {}: the live frontends {} this name, has_hostname says {}",
+                                tagf(), show(h), if exp { "still cover" } else { "do not cover" }, got
+                            ),
+                        );
+                    }
                 }
             }
             "permcheck" => {
